@@ -122,3 +122,39 @@ Proof. vm_compute. discriminate. Qed.
 
 Lemma alias_into_loop_diverges : forall fuel, res_alias false ents_loop fuel 0 s_z s_b = ADiverge.
 Proof. intros. apply loop_diverges. Qed.
+
+(* ---- the complete result of gd_open (with alias resolution and the reference
+   lookup), given that entry names are unique ------------------------------ *)
+Definition uniq (ents : list entry) : Prop :=
+  forall e, In e ents -> find_exact (e_name e) ents = Some e.
+
+Lemma resolve_all_ext : forall rs1 rs2 l,
+  (forall e t, In e l -> e_kind e = EAlias t -> rs1 (e_name e) t = rs2 (e_name e) t) ->
+  resolve_all rs1 l = resolve_all rs2 l.
+Proof.
+  induction l; simpl; intros; auto.
+  destruct (e_kind a) eqn:K; try (apply IHl; intros; apply H; auto; fail).
+  rewrite (H a target); auto. rewrite IHl; auto.
+Qed.
+
+Lemma finish_ext : forall rs1 rs2 po,
+  (forall e t, In e (po_entries po) -> e_kind e = EAlias t -> rs1 (e_name e) t = rs2 (e_name e) t) ->
+  finish rs1 (Ok po) = finish rs2 (Ok po).
+Proof.
+  intros. unfold finish. rewrite (resolve_all_ext rs1 rs2); auto.
+  destruct (resolve_all rs2 (po_entries po)); auto.
+  destruct (po_ref po); auto.
+  destruct (find_field code (po_entries po)) as [E|] eqn:F; auto.
+  destruct (e_kind E) eqn:K; auto.
+  rewrite (H E target); auto. eapply find_exact_in; eauto.
+Qed.
+
+Theorem fin_agrees : forall t po, tree_plain t = true ->
+  interp_spec_pre t = Ok po -> uniq (po_entries po) ->
+  interp_impl code_params t = interp_spec t.
+Proof.
+  intros t po Ht Hs Hu. pose proof (scope_agrees_code t Ht) as A. unfold agrees in A. rewrite Hs in A.
+  unfold interp_impl, interp_spec. rewrite A, Hs.
+  apply finish_ext. intros e tg Hin K. rewrite alias_bounded_code.
+  apply resolve_impl_is_alias_spec; auto.
+Qed.
